@@ -78,6 +78,7 @@ UMeta(it) ==
       [] k = "arg"     -> UItem(UName(it) \o "=" \o it.metavar)
       [] k = "pos"     -> UPosBase(it)
       [] k = "any"     -> UItem(it.metavar)
+      [] k = "lit"     -> UItem(it.lit)           \* a fixed word (`literal`) shows as itself
       [] k = "cmd"     -> UCmdItem
       [] k = "alt"     -> UChoice(UMetaSeq(it.branches))
       [] k = "branch"  -> IF Len(it.fields) = 1 THEN UMeta(it.fields[1]) ELSE USeq(UMetaSeq(it.fields))
